@@ -86,6 +86,11 @@ def run(chk, facts):
     chk.rule("R-C04-9", "no element is dropped before it is compared: every zip/take/skip in the checker is length-guarded or reviewed (shared census)")
     from .quant import truncation_census
     truncation_census(chk, facts, "R-C04-9")
+    # the unifier accepts a pair of types only through the assignability relation (shared with C05 / C06)
+    from . import c05 as _c05, c06 as _c06
+    from .common import borrow
+    borrow(chk, facts, _c06, ("R-C06-2|unify_type",), {"R-C06-2": "unify_type accepts a pair of types exactly when the left is a superset of the right, or one of them is Any as a whole (shared with C06)"})
+    borrow(chk, facts, _c05, ("R-C05-4|",), {"R-C05-4": "unify_type asks the relation in the direction parent >= child (shared with C05)"})
     chk.assume("soundness of unification (substitution, `Any` accepts everything by design, generics) is not decided (ND); "
                "value-dependent errors (index out of range, division by zero) are outside the property")
     chk.notes.append("C04: traversal census, constraint census, dispatch, operator->protocol-method chain, strict lookups on MIR, stubs vs CPython table.")
